@@ -4,6 +4,7 @@ import (
 	"fmt"
 	"go.dedis.ch/kyber/v3/util/key"
 	"math/rand"
+	"sort"
 	"strconv"
 	"strings"
 	"sync"
@@ -211,6 +212,21 @@ func c04show(target *onet.TreeNode, ds []fix.Delivery) string {
 	return strings.Join(parts, ";")
 }
 
+// c04sameBatches: the property speaks about which messages a batch holds, not about their order inside it
+// (the model comparison is order-sensitive: the code keeps the arrival order)
+func c04sameBatches(a, b string) bool {
+	canon := func(s string) string {
+		bs := strings.Split(s, ";")
+		for i, x := range bs {
+			it := strings.Split(x, ",")
+			sort.Strings(it)
+			bs[i] = strings.Join(it, ",")
+		}
+		return strings.Join(bs, ";")
+	}
+	return canon(a) == canon(b)
+}
+
 func c04exec(c *h.Ctx, cs *h.Case) {
 	for _, op := range cs.Ops {
 		if strings.HasPrefix(op, "c04 inst ") {
@@ -312,7 +328,7 @@ func c04exec(c *h.Ctx, cs *h.Case) {
 					want = "-"
 				}
 			}
-			if cs.Class != "free" && obs != want {
+			if cs.Class != "free" && !c04sameBatches(obs, want) {
 				cs.Fail("batch-mismatch", fmt.Sprintf("after %q the instance received %q, the property demands %q", op, obs, want))
 			}
 		default:
